@@ -313,4 +313,21 @@ theorem tie_app_content_types :
   · intro h hp; simp [formSrc, hp]
   · intro h hp; simp [formSrc, hp]
 
+/-- **The struct-info cache is keyed by both things the field table depends on - the struct type and the tag -, the
+    table is parsed from exactly these two, and the write lock is released by a `defer` registered right after it is
+    taken, before the parse (which runs application code: the `UnmarshalText` of default values)**; the model's field
+    table `flatten P tag fs` is a function of the tag and the type alone, so a memo under this key is transparent. -/
+theorem tie_struct_info_cache :
+    cacheKey_fields.map (·.2) = ["reflect.Type", "string"] ∧
+    getStructInfo_key = (cacheKey_fields.map (·.1)).zipWith (fun f p => f ++ "=" ++ p) ["param0", "param1"] ∧
+    getStructInfo_parseArgs = ["param0", "param1"] ∧
+    (match firstWith "Lock" getStructInfo_items, firstWith "defer:Unlock" getStructInfo_items,
+       firstWith "parseStructInfo" getStructInfo_items, firstWith "Store" getStructInfo_items with
+     | some a, some b, some c, some d => decide (a < b ∧ b < c ∧ c < d)
+     | _, _, _, _ => false) = true ∧
+    firstWith "Unlock" getStructInfo_items = none ∧
+    (∀ (P : Params) (tag : Tag) (fs : List Fld), flatten P tag fs = flattenFs P tag [] 0 fs) := by
+  refine ⟨by decide, ?_, by decide, by decide, by decide, fun _ _ _ => rfl⟩
+  decide
+
 end Rivaas.Tie.C04Bind
